@@ -30,6 +30,7 @@ def dispatch (line : String) : String :=
     else if cmd = "h2send" then Drv.h2send args
     else if cmd = "h2win" then Drv.h2win args
     else if cmd = "h2goaway" then Drv.h2goaway args
+    else if cmd = "h2recv" then Drv.h2recv args
     else "bad-cmd"
 
 partial def loop (h : IO.FS.Stream) (out : IO.FS.Stream) : IO Unit := do
